@@ -266,6 +266,23 @@ func srcClass(src string) string {
 	if strings.Contains(src, "<pre") {
 		cl = append(cl, "pre")
 	}
+	for _, t := range []string{"<noscript", "<iframe", "<xmp", "<noembed", "<noframes"} {
+		if strings.Contains(src, t) {
+			cl = append(cl, "rawtext:"+t[1:])
+		}
+	}
+	if strings.Contains(src, "<svg") || strings.Contains(src, "<math") {
+		cl = append(cl, "foreign")
+	}
+	if strings.Contains(src, "&nbsp;") || strings.Contains(src, "\u00a0") {
+		cl = append(cl, "nbsp")
+	}
+	if i := strings.Index(strings.ToLower(src), "<!doctype"); i > 0 {
+		cl = append(cl, "doctype-not-first")
+	}
+	if strings.Contains(src, "{{ '") || strings.Contains(src, "{{ s == \"") {
+		cl = append(cl, "mustache-string-literal")
+	}
 	if len(cl) == 0 {
 		return "plain"
 	}
@@ -386,6 +403,19 @@ func c19Generate(tier string, emit func(src string)) {
 		emit("<script>" + body + "</script>")
 		emit("<style>" + body + "</style>")
 		emit("<div><script type=\"x\">" + body + "</script></div>")
+	}
+	// other raw-text elements, prologues before fragments and documents, foreign content,
+	// mustache expressions with string literals and entities, non-breaking spaces
+	for _, src := range []string{
+		`<noscript><img src="x"></noscript>`, `<div><noscript><p>a &amp; b</p></noscript></div>`, `<iframe><b>x</b></iframe>`, `<xmp><b>x</b> &amp;</xmp>`, `<noembed><i>y</i></noembed>`,
+		"<!-- row -->\n<tr><td>x</td></tr>", "<!-- c --><td>x</td>", "<tr\r\n  v-for=\"r in rows\"><td>x</td></tr>", "<tr\tclass=\"a\"><td>x</td></tr>",
+		"<!-- x -->\n<!DOCTYPE html>\n<html><body><p>a</p></body></html>", "\n<!DOCTYPE html><html><head></head><body><p>a</p></body></html>",
+		`<svg><use xlink:href="#a"></use></svg>`, `<svg viewBox="0 0 1 1"><path d="M0 0"/></svg>`, `<svg><style>.a &gt; .b{}</style></svg>`, `<math><mi>x</mi></math>`,
+		`<p>{{ 'a  b' }}</p>`, `<p>{{ s == "x  y" ? 1 : 2 }}</p>`, `<p title="{{ 'a  b' }}">t</p>`, `<p>{{ a &amp;lt; b }}</p>`, `<p>{{ a &lt; b }}</p>`,
+		`<p>a&nbsp;</p>`, `<p>&nbsp;a</p>`, `<p title="&nbsp;x&nbsp;">t</p>`, `<p>a&nbsp;&nbsp;b</p>`, `<b>x</b>&nbsp;<i>y</i>`,
+		`<script>var s = "</html>";</script>`, `<p>a</p><script>var s = "</html>";</script>`,
+	} {
+		emit(src)
 	}
 	// front-matter and documents
 	fms := []string{"", "---\ntitle: x\n---\n", "---\nlayout: base\nitems:\n  - a\n  - b\n---\n", "---\n---\n", "---\ntitle: \"a: b\"\n---\n\n"}
